@@ -391,6 +391,9 @@ def dry_runs():
         yield 'D1_fd_pty', dict(w0=3, r0=0, gone=False, t1=0, w1=3, size=2, tr=tr, tmo=0)
 
 
+PROBES = ['transports', 'expect_core']      # representation probes (harness/probes.py) this harness depends on
+
+
 MANIFEST_ENTRY = {
     'level_text': 'Bounded symbolic verification that every read path of the real code (fd, pty incl. the joined '
                   'double read, piped subprocess with carry-over, socket, asyncio protocol) feeds each byte exactly once, '
